@@ -275,6 +275,25 @@ let handle (req : sexp) : String.t =
                   "order_ru", jopt jnames (sorted_names o true);
                   "missing", jnames (missing_names o);
                   "membership", jlist (fun (c, ns) -> "[" ^ jstr (os c) ^ "," ^ jnames ns ^ "]") (membership cs_) ])
+  | L [A "split"; A which; A name] ->
+      (* make C.to_ode() (which = to_ode) or model - C (which = minus) the current model *)
+      let name = cs name in
+      (match List.find_opt (fun c -> os c.c_name = os name) !cur_comps with
+       | None -> jobj ["status", jstr "no-such-component"]
+       | Some c ->
+           let o = (match which with "to_ode" -> to_ode c | "minus" -> minus !cur_comps name | _ -> bad "split which") in
+           cur := Some o;
+           jobj [ "status", jstr "ok";
+                  "state_names", jnames (state_names o);
+                  "sorted_states", jopt jnames (sorted_states o);
+                  "params", jnames (param_names o);
+                  "inters", jnames (inter_names o);
+                  "derivs", jnames (deriv_names o);
+                  "order", jopt jnames (sorted_names o false);
+                  "order_ru", jopt jnames (sorted_names o true);
+                  "missing", jnames (missing_names o) ])
+  | L [A "whole"] ->
+      cur := Some (ode_of !cur_comps); jobj ["status", jstr "ok"]
   | L [A "mirror"; A kind; A ru; A order] ->
       let o = the_ode () in
       let ru = (ru = "1") in
